@@ -9,29 +9,16 @@ VERIF = os.path.dirname(os.path.dirname(os.path.abspath(__file__)))
 sys.path.insert(0, VERIF)
 
 NA = {
-    "C11": "MPFA linear exactness is a statement about the result of local dense solves over interaction regions; its truth depends on geometry-dependent floating-point values that no static argument in reach can bound (the bookkeeping of the split is claimed under C14).",
-    "C12": "TPFA symmetry / M-matrix / agreement with MPFA are algebraic facts about assembled sparse values (harmonic means, signs per grid); no code-shape clause short of re-deriving the scheme.",
-    "C13": "MPSA linear exactness: numerical result of local solves (as C11).",
-    "C15": "Biot coupling consistency: numerical identity between assembled matrices (as C11).",
-    "C16": "TPSA translation invariance: numerical identity of assembled matrices.",
-    "C18": "RT0/MVEM exactness and SPD mass matrices: numerical properties of element matrices.",
-    "C19": "Divergence-theorem identities of computed geometry: numerical identities over node coordinates.",
-    "C20": "Rigid-motion equivariance of geometry: numerical; orientation fallbacks are data-dependent branches.",
-    "C21": "Connectivity queries are one-line sparse-matrix formulas; any static rule would be a frozen source fragment. The one cross-module convention in it (row 0 of cell_faces_as_dense <-> positive sign) is checked where it is consumed, under C17.",
-    "C22": "Subgrid extraction/partitioning: values of index maps and recomputed geometry; overlap growth is a graph fact about data.",
-    "C23": "Refinement/extrusion measure and nesting: numerical/geometric.",
+    "C11": "MPFA linear exactness is a statement about the result of local dense solves over interaction regions (the inverse of a geometry-dependent matrix); there is no closed form to extract and no static argument in reach bounds the values (the bookkeeping of the split is claimed under C14).",
+    "C13": "MPSA linear exactness: numerical result of local dense solves (as C11).",
+    "C15": "Biot coupling consistency: numerical identity between matrices assembled through the same local solves as C11/C13.",
+    "C18": "RT0/MVEM exactness and SPD mass matrices: element matrices involve per-cell dense solves and a norm-dependent stabilisation weight; SPD-ness is a spectral fact.",
     "C25": "Conforming fractured grids: output of gmsh plus geometric matching with tolerances.",
-    "C28": "Segment intersection vs exact arithmetic: tolerance-laden floating-point predicates.",
-    "C29": "Segment splitting vs exact arithmetic: tolerance-laden floating-point predicates.",
-    "C30": "Distance computations: numerical.",
-    "C31": "Geometric predicates and point orderings: numerical with tolerances.",
-    "C32": "Orthonormal maps: numerical.",
-    "C33": "Tessellation overlaps: numerical.",
-    "C35": "Sparse utilities vs dense semantics: round-trip equality of values over CSR/CSC internals for all matrices; runtime-value quantification.",
-    "C37": "Block-diagonal inversion: numerical inverse and data-dependent permutation discovery.",
-    "C41": "Interpolation tables: numerical.",
-    "C42": "Saturations and fraction chain rule: numerical (numba kernels).",
-    "C44": "Clipping: geometric set equality.",
+    "C28": "Segment intersection vs exact arithmetic: tolerance-laden floating-point predicates; the property is stated away from the tolerance band, i.e. about rounding.",
+    "C29": "Segment splitting vs exact arithmetic: tolerance-laden floating-point predicates (as C28).",
+    "C31": "Geometric predicates and point orderings: floating-point predicates with tolerances (as C28).",
+    "C33": "Tessellation overlaps: polygon clipping through an external library (shapely) and tolerance-based point matching.",
+    "C44": "Clipping: geometric set equality of the output of iterative clipping with tolerances.",
 }
 
 
@@ -59,7 +46,7 @@ def main() -> None:
                 "text": meta.get("level_text") or (
                     "Static analysis (no execution): decides structural necessary conditions of the property on every "
                     "path/call site/sibling of the anchored code. " + meta.get("explanation", "")),
-                "design_ref": f"DESIGN.md section 6 ({pid})",
+                "design_ref": f"DESIGN.md sections 6 and 11 ({pid})",
             },
             "level_note": meta.get("level_note") or (
                 "Trusted: python ast, the checker's own resolver/CFG (sa/core), the rule's enumerated idioms. "
